@@ -12,30 +12,44 @@ import (
 
 	"github.com/deadsy/sdfx/sdf"
 	. "verifharness/kit"
+	"verifharness/profgen"
 )
 
-func main() { Main("C17", check) }
+// gen: harness/profgen extracts the control skeletons of sdf/poly.go and sdf/bezier.go
+// (nextVertex, prevVertex, the createArcs / smoothVertices loops, fixups, the endpoint/midpoint
+// loop of Bezier.Polygon) into coq/Generated/ProfSkel.v; coq/Sdf/ProfEq.v proves them equal to the model.
+func main() { Main("C17", check, profgen.Gen) }
 
 const imp = "From Sdfx Require Import Num.Ops Num.FInst Sdf.Build Sdf.Bezier Sdf.C17Corr.\nOpen Scope float_scope."
+const imph = "From Sdfx Require Import Num.Ops Num.FInst Sdf.Build Sdf.Bezier Sdf.C17Corr Sdf.C17Hist.\nOpen Scope float_scope."
 
 type corpus struct {
-	Poly   []polySpec  `json:"poly"`
-	Nagon  []nagonSpec `json:"nagon"`
-	Bezier []bezSpec   `json:"bezier"`
+	Poly     []polySpec  `json:"poly"`
+	Nagon    []nagonSpec `json:"nagon"`
+	Bezier   []bezSpec   `json:"bezier"`
+	PolyHist []polyHist  `json:"polyhist"`
+	BezHist  []bezHist   `json:"bezhist"`
 }
 
 type runner struct {
 	r          *Report
 	cp, cn, cb *Cases
+	chp, chb   *Cases // histories (hist.go, coq/Sdf/C17Hist.v)
 	id         int
 	st         bezStats
 	oracles    map[string]int
+	calls      int // calls of Vertices()/Polygon()/Mesh2D() after the first on the same builder value
 }
 
 func (x *runner) poly(stratum string, s polySpec) {
 	s.Kind = "poly"
 	x.id++
-	vs, panicked := s.run()
+	// the same Polygon value is asked for its vertices three times (hist.go): the first answer is
+	// compared with the model and the oracles below, the later ones must repeat it
+	h := s.hist(2)
+	run := runPolyHist(h)
+	vs, panicked := run.res[0].vs, run.res[0].panicked
+	x.calls += polyHistOracle(h, run.res, 1, false, func(what string) { x.r.Violate(h.key(), "Polygon history: "+what, h) }, nil)
 	x.cp.Add(s.coq(x.id, vs, panicked))
 	key := s.key()
 	o := polyOracle(s, vs, panicked, func(what string) { x.r.Violate(key, "Polygon.Vertices(): "+what, s) })
@@ -62,7 +76,18 @@ func (x *runner) nagon(stratum string, n int, radius float64) {
 func (x *runner) bezier(stratum string, s bezSpec) {
 	s.Kind = "bezier"
 	x.id++
-	vs, outcome, draws := s.run()
+	// the same Bezier value is rendered twice with the same perturbation draws (every third one
+	// also through Mesh2D()): the first polyline is compared with the model and the oracle below,
+	// the second must repeat it (hist.go)
+	h := s.hist(x.id%3 == 0)
+	run := runBezHist(h)
+	vs, outcome, draws := run.res[0].vs, run.res[0].outcome, run.res[0].draws
+	x.calls += bezHistOracle(run, 1, false, &x.st, func(what string) {
+		if len(run.res) > 1 && run.res[1].built && run.res[1].observed { // say what is wrong with the second polyline itself
+			bezOracle(s, run.res[1].vs, run.res[1].outcome, &bezStats{}, func(w string) { what += "; the second polyline against the specified curve: " + w })
+		}
+		x.r.Violate(h.key(), "Bezier history: "+what, h)
+	}, nil)
 	x.cb.Add(s.coq(x.id, vs, outcome, draws))
 	key := s.key()
 	o := bezOracle(s, vs, outcome, &x.st, func(what string) { x.r.Violate(key, "Bezier.Polygon().Vertices(): "+what, s) })
@@ -82,7 +107,9 @@ func check(c *Ctx, r *Report) error {
 	x := &runner{r: r, oracles: map[string]int{},
 		cp: &Cases{Kind: "poly", Imports: imp, Type: "casep", Fn: "mismatchesp", InfoFn: "inexactp", PerShard: 150},
 		cn: &Cases{Kind: "nagon", Imports: imp, Type: "casen", Fn: "mismatchesn", InfoFn: "inexactn", PerShard: 40},
-		cb: &Cases{Kind: "bezier", Imports: imp, Type: "caseb", Fn: "mismatchesb", InfoFn: "inexactb", PerShard: 40}}
+		cb:  &Cases{Kind: "bezier", Imports: imp, Type: "caseb", Fn: "mismatchesb", InfoFn: "inexactb", PerShard: 40},
+		chp: &Cases{Kind: "hpoly", Imports: imph, Type: "casehp", Fn: "mismatcheshp", InfoFn: "inexacthp", PerShard: 40},
+		chb: &Cases{Kind: "hbezier", Imports: imph, Type: "casehb", Fn: "mismatcheshb", InfoFn: "inexacthb", PerShard: 14}}
 
 	// corpus first
 	var cp corpus
@@ -99,6 +126,12 @@ func check(c *Ctx, r *Report) error {
 	}
 	for _, s := range cp.Bezier {
 		x.bezier("corpus", s)
+	}
+	for _, h := range cp.PolyHist {
+		x.polyHist("corpus", h)
+	}
+	for _, h := range cp.BezHist {
+		x.bezHist("corpus", h)
 	}
 	// replay file of the driver: {"failing_inputs": [{"input": spec}]}
 	if c.Replay != "" {
@@ -132,25 +165,37 @@ func check(c *Ctx, r *Report) error {
 				var s bezSpec
 				json.Unmarshal(f.Input, &s)
 				x.bezier("replay", s)
+			case "polyhist":
+				var h polyHist
+				json.Unmarshal(f.Input, &h)
+				x.polyHist("replay", h)
+			case "bezhist":
+				var h bezHist
+				json.Unmarshal(f.Input, &h)
+				x.bezHist("replay", h)
 			}
 		}
 	} else {
 		genPoly(c, rng, x)
 		genNagon(c, rng, x)
 		genBezier(c, rng, x)
+		genPolyHist(c, rng, x)
+		genBezHist(c, rng, x)
 	}
 
-	for _, cs := range []*Cases{x.cp, x.cn, x.cb} {
+	for _, cs := range []*Cases{x.cp, x.cn, x.cb, x.chp, x.chb} {
 		if err := cs.Write(c.Out); err != nil {
 			return err
 		}
 	}
 	r.Coverage["direct_oracles"] = x.oracles
 	r.Coverage["bezier_vertices_checked"] = x.st.verts
+	r.Coverage["calls_after_the_first_on_the_same_builder_value"] = x.calls
 	r.Coverage["bezier_last_vertex_equal_only_within_rounding"] = x.st.lastInexact
-	r.Rule = "polygon builders: three-vertex corners A, V.Smooth(r,n)|V.Chamfer(s), B with interior angles 1..179 degrees (plus 0.1/179.9), both turning directions, edges long / either one shorter than the tangent distance / on the borderline, radii from 1e-6 of the edge to too large, facets 1..16, random and axis-aligned dyadic placement; two-vertex arcs with radius/chord from the exact semicircle limit (all chord directions) to 100, both signs, facets 1..16, chords longer than the diameter (model comparison only); Rel/Polar mixes open/closed/reversed incl. the panicking and erroneous ones; polygons with 2..6 arc segments (stadiums, lenses, scalloped rings, arcs late in the list, up to 40 facets: every arc vertex must be preceded by its facets-1 circle points, vertex count exact); closed and open polygons mixing smoothed, chamfered, arc and plain vertices (adjacent fillets, arcs into the first vertex); zero radius/facet no-ops; Nagon 0..64 sides. Bezier: spans of degree 1..4 from Add/Mid/HandleFwd/HandleRev/Handle, open/closed, 1..6 spans, repeated end points (point spans: leading, inner, trailing), closed curves whose first/last Mid control point sits on (or within 1e-9 of) the first vertex (teardrops, closing quadratic/cubic/quartic), loops and cusps (recursion limit), dyadic-exact regime (vertices must equal the rational de Casteljau point EXACTLY) and rounding regime (1e-9 of the coordinate scale), random / all-low / all-high perturbation draws, malformed curves (error / panic outcomes). non-trivial = polygon with >= 2 vertices, n-gon with >= 3 sides, bezier that produced >= 2 vertices; distinct by exact input bits."
+	r.Rule = "polygon builders: three-vertex corners A, V.Smooth(r,n)|V.Chamfer(s), B with interior angles 1..179 degrees (plus 0.1/179.9), both turning directions, edges long / either one shorter than the tangent distance / on the borderline, radii from 1e-6 of the edge to too large, facets 1..16, random and axis-aligned dyadic placement; two-vertex arcs with radius/chord from the exact semicircle limit (all chord directions) to 100, both signs, facets 1..16, chords longer than the diameter (model comparison only); Rel/Polar mixes open/closed/reversed incl. the panicking and erroneous ones; polygons with 2..6 arc segments (stadiums, lenses, scalloped rings, arcs late in the list, up to 40 facets: every arc vertex must be preceded by its facets-1 circle points, vertex count exact); closed and open polygons mixing smoothed, chamfered, arc and plain vertices (adjacent fillets, arcs into the first vertex); zero radius/facet no-ops; Nagon 0..64 sides. Bezier: spans of degree 1..4 from Add/Mid/HandleFwd/HandleRev/Handle, open/closed, 1..6 spans, repeated end points (point spans: leading, inner, trailing), closed curves whose first/last Mid control point sits on (or within 1e-9 of) the first vertex (teardrops, closing quadratic/cubic/quartic), loops and cusps (recursion limit), dyadic-exact regime (vertices must equal the rational de Casteljau point EXACTLY) and rounding regime (1e-9 of the coordinate scale), random / all-low / all-high perturbation draws, malformed curves (error / panic outcomes). HISTORIES: every polygon and Bezier value above is rendered again (Vertices() three times; Polygon() twice with the perturbation source restarted, every third one also Mesh2D()): the later answers must repeat the first bit for bit, polygons handed out earlier must be unchanged at the end; explicit history strata compared call by call with the model run as a state machine (coq/Sdf/C17Hist.v): polygons given in 1..3 stages with Vertices() after each (corner whose fillet vertex is first the last vertex, arc chains, Rel/Polar across a render, mixed rings open / closed from the start), Close() and Reverse() one at a time after a render, Mesh2D() in between (bounding box = that of the polyline); Bezier values with handles rendered 3..5 times (fresh and restarted draws, Mesh2D()), open curves given in stages (a stage may end on a control point), Close() after a render, vertices added behind the closing point, dyadic-exact curves in stages, two values alive and rendered alternately, builder and Polygon() panics followed by further use; one-shot oracles applied to every call whose history is equivalent to a one-shot specification. non-trivial = polygon with >= 2 vertices, n-gon with >= 3 sides, bezier that produced >= 2 vertices, history with >= 2 calls; distinct by exact input bits."
 	r.Trusted = append(r.Trusted,
 		"hand model coq/Sdf/Build.v, coq/Sdf/Bezier.v tied by differential execution at FOps on every run (bit-exact expected, 1e-12 relative tolerated, counted separately)",
+		"control skeletons (Polygon.nextVertex/prevVertex, the createArcs and smoothVertices loops, fixups, the endpoint/midpoint loop of Bezier.Polygon) translated from the Go AST by harness/profgen on every run and proved equal to the model (coq/Sdf/ProfEq.v, theorems C17_SKEL_*); the idiom recognition of the two fixed-point loops and the `for cond {body}` iteration schema are part of the translator",
 		"Coq port of Go math.Sin/Cos/Tan/Acos/Sqrt/Abs/Max (coq/Num/GoMath.v, checked by property GOMATH)",
 		"hook sdf.VerifC17SetRand: the sampler's random draws are supplied and recorded by the harness (math/rand.Float64 = masked Int63 / 2^53, self-tested each run)")
 	r.Assumptions = append(r.Assumptions,
